@@ -12,6 +12,7 @@ mod lark;
 mod rx;
 mod utf8rx;
 mod c17;
+mod c18;
 mod engine;
 mod model;
 mod report;
@@ -99,6 +100,13 @@ fn props() -> Vec<Prop> {
         thorough_cases: 2400,
         gen: c16::gen_case,
         run: c16::run_case,
+    }, Prop {
+        id: "C18",
+        rule: "even cases: StopController over a vocabulary of text pieces (multi-byte characters cut apart, special and empty tokens), random stop strings / stop tokens, token sequences of mostly consecutive pieces (every third such case allows arbitrary jumps = invalid UTF-8); odd cases: API scripts on Matcher and Constraint with illegal calls (token outside mask, id out of range, calls after stop); distinct non-trivial = distinct (stop set, sequence prefix) resp. (grammar, committed tokens)",
+        quick_cases: 80,
+        thorough_cases: 1200,
+        gen: c18::gen_case,
+        run: c18::run_case,
     }, Prop {
         id: "C17",
         rule: "case = (corpus grammar, synthetic vocabulary sized around a multiple of 32, random history); every step compares C and Rust APIs and runs llg_par_compute_mask for every destination length 0..mask+3 and three longer ones; distinct non-trivial = distinct (grammar, vocab size, mask words) triples with an engine mask",
